@@ -46,6 +46,7 @@ class Tools:
         self.killso = os.path.join(vlib.WORK, "bin", "killpoint.so")
         src = os.path.join(HERE, "killpoint.c")
         if not os.path.exists(self.killso) or os.path.getmtime(self.killso) < os.path.getmtime(src):
+            os.makedirs(os.path.dirname(self.killso), exist_ok=True)   # a run against another tree starts with an empty work area
             tmpso = "%s.tmp%d" % (self.killso, os.getpid())
             vlib.sh("gcc -shared -fPIC -O1 -o %s %s -ldl" % (tmpso, src), check=True, timeout=120)
             os.replace(tmpso, self.killso)
